@@ -111,6 +111,16 @@ CHECKS = {
             'beat is unconstrained; three symbolic data values.',
             'TLC model checking of two register-level FSMs under all schedules; transition-covering replay; TLC trace validation at the property layer',
             'DESIGN.md section 4, C16'),
+    'C20': ('model_checking',
+            'TLC runs the implementation-shaped CMDRequest/CMDResponse FSMs (HilCmd.tla) on a set of command streams under every '
+            'producer pacing (idle gaps anywhere, VALID held until taken) and on a set of (value, size) pairs under every consumer '
+            'pacing and checks NoSpuriousAction, AllActionsOnce (observed pulses = Parse(stream), each once, with the transmitted '
+            'numbers) and ResponsePrefix/ResponseComplete. Every complete schedule is replayed cycle by cycle on the real blocks and '
+            'judged by TLC at the property layer (characters reconstructed from the handshakes); seeded random streams with 1-7 digit '
+            'numbers and random pacing as well.',
+            'values below 2^28; size >= 1; well-formed streams; up to 3-5 idle cycles per behaviour in the exhaustive part.',
+            'TLC model checking of the codec FSMs under all pacing schedules; replay of every schedule; TLC trace validation against the command semantics',
+            'DESIGN.md section 4, C20'),
 }
 
 PENDING = {}
